@@ -5,8 +5,8 @@ package main
 // caret rendering of the error (node.VerifReportError).
 
 import (
-	"encoding/hex"
 	"bufio"
+	"encoding/hex"
 	"encoding/json"
 	"fmt"
 	"io"
@@ -19,11 +19,12 @@ import (
 )
 
 type frontIn struct {
-	ID      int    `json:"id"`
-	Src     string `json:"src"`
-	WantAst bool   `json:"wantast"`
-	NoLex   bool   `json:"nolex"`
-	Hex     string `json:"hex"` // the input as hexadecimal bytes (for inputs that are not valid UTF-8 and so cannot travel as JSON text)
+	ID      int      `json:"id"`
+	Src     string   `json:"src"`
+	WantAst bool     `json:"wantast"`
+	NoLex   bool     `json:"nolex"`
+	Hex     string   `json:"hex"` // the input as hexadecimal bytes (for inputs that are not valid UTF-8 and so cannot travel as JSON text)
+	Pre     []string `json:"pre"` // texts handed to parser.Parse before this one, in the same process (a session's earlier inputs)
 }
 
 // lastNexts is the number of TLexer.Next calls (replays included) the last guarded function made: the work of a parse.
@@ -88,6 +89,9 @@ func cmdFront() {
 		}
 		budget := 4*len(src) + 64
 		res := M{"id": fi.ID}
+		for _, pre := range fi.Pre {
+			guarded(40*(4*len(pre)+64)+4096, func() { parser.Parse(pre) })
+		}
 		if !fi.NoLex {
 			toks := [][]any{}
 			lexErr := ""
